@@ -171,6 +171,26 @@ func genC08(r *rng, n int, tier string, emit func(string, ...string)) {
 		o := genRopts(sub)
 		emit("xpolb", o.String(), c.ver, strconv.Itoa(c.rt0), pairsArg(c.hdr), hx(c.content), hxs(fixedId), oraclesForBuild(c))
 	}
+	// warc-fields blocks with an inner defect, a caller-supplied Content-Length that is the length of the REPAIRED block (or of
+	// the block as given), and the block repair option on or off: the repair must not make acceptance depend on the policy level
+	// in a non-monotone way
+	defective := [][2]string{{"a: b\n", "A: b\r\n"}, {"k: v\nx: y\n", "K: v\r\nX: y\r\n"}, {"a: b\r\n c\n", "A: b c\r\n"}, {"nocolon\r\na: b\r\n", "A: b\r\n"}}
+	for i := 0; i < n/12+4; i++ {
+		sub := r.fork()
+		d := pick(sub, defective)
+		cl := len(d[1])
+		if sub.chance(1, 3) {
+			cl = len(d[0])
+		}
+		c := bcase{ver: pick(sub, []string{"1.0", "1.1"}), rt0: 16, content: []byte(d[0]), class: "wf-defect", hdr: [][2]string{
+			{"WARC-Record-ID", "<urn:uuid:00000000-0000-4000-8000-000000000001>"}, {"WARC-Date", "2020-01-01T00:00:00Z"},
+			{"Content-Type", "application/warc-fields"}, {"WARC-Refers-To", "<urn:uuid:00000000-0000-4000-8000-000000000002>"},
+			{"Content-Length", strconv.Itoa(cl)}}}
+		o := genRopts(sub)
+		o.fixwf = sub.chance(3, 4)
+		stat("xpolb-class", "wf-defect")
+		emit("xpolb", o.String(), c.ver, strconv.Itoa(c.rt0), pairsArg(c.hdr), hx(c.content), hxs(fixedId), oraclesForBuild(c))
+	}
 }
 
 func init() {
